@@ -250,6 +250,12 @@ func genDoc(r *rand.Rand, o genOpts) *docSpec {
 			tA = fmt.Sprintf("%s %d", tA, year)
 			d.feat("running.has-digits")
 		}
+		if !withYear && (kind == "run" || kind == "run2") && r.Intn(6) == 0 {
+			// a very short running line: a section sign (one WinAnsi byte, two bytes in
+			// UTF-8) and a number that is the same on every page, e.g. "§1234"
+			tA = fmt.Sprintf("\xa7%d", uniqueNum())
+			d.feat("running.short-non-ascii")
+		}
 		name := map[string]string{bandTop: "hdr", bandBottom: "ftr"}[band]
 		d.feat(name + "." + kind)
 		d.feat(name + ".align-" + align)
